@@ -144,6 +144,7 @@ def churn_items(cis, n: int) -> list[dict]:
     for ci in cis:
         items.append({"id": f"churn{ci}", "programs": [[("churn", ci, 0, n)]]})
         items.append({"id": f"churnw{ci}", "programs": [[("w", ci, 0, 0), ("r", ci, 1, 0), ("churn", ci, 1, n)]]})
+        items.append({"id": f"churnc{ci}", "programs": [[("w", ci, 1, 0), ("churn", ci, 0, n, "clear")]]})
     return items
 
 
